@@ -134,7 +134,8 @@ Print Assumptions C09_sync_up_partial.
 (* PARTIAL ("always hold the same values ... whichever side is updated"): after EVERY history of
    operations none of which is applied on the receiving side of a value link -- macro-level input
    assignments, runs, child-level assignments to inputs that are not the target of a link, assignments to
-   outputs nothing is linked into (e.g. the outputs of function children), at any depth -- EVERY
+   outputs nothing is linked into (e.g. the outputs of function children), replacements of a function
+   child by a fresh node of its class (Composite.replace_child re-forges its links), at any depth -- EVERY
    value-linked pair of channels, at every depth, holds equal values.  [free_op s o] is exactly the
    negation of the cause predicate of the two S14 findings.  Missing: updates on the receiving side
    (refuted below). *)
